@@ -2,6 +2,7 @@ import Rpcx.Driver.Util
 import Rpcx.Driver.Header
 import Rpcx.Driver.Wire
 import Rpcx.Driver.Breaker
+import Rpcx.Driver.Select
 /-
   Line-protocol driver: one operation per input line, one canonical output line per
   operation.  Runs the executable definitions of the model (generated and hand-written);
@@ -17,6 +18,7 @@ def step (line : String) : String :=
   | "dec" :: ws => cmdDec ws
   | "decall" :: ws => cmdDecAll ws
   | "brk" :: ws => cmdBrk ws
+  | "sel" :: ws => cmdSel ws
   | _ => "bad-op"
 
 partial def loop (hin : IO.FS.Stream) (hout : IO.FS.Stream) : IO Unit := do
